@@ -1942,3 +1942,200 @@ theorem CV.prim {st st' : State} (w : WF st) (t : TM st) (x : IX st) (h : CV st)
 
 
 end SigModel.Bus
+
+namespace SigModel.Bus
+open SigModel.Generated.Bus
+
+/-! ### all invariants together -/
+
+structure Inv (st : State) : Prop where
+  wf : WF st
+  tm : TM st
+  ix : IX st
+  nd : ND st
+  od : OD st
+  rg : RG st
+  cv : CV st
+
+theorem Reach.inv {st : State} (h : Reach st) : Inv st := by
+  refine Reach.induct (P := Inv) ⟨WF.init, TM.init, IX.init, ND.init, OD.init, RG.init, CV.init⟩ ?_ st h
+  intro st st' _ i p
+  exact ⟨i.wf.prim p, i.tm.prim p, i.ix.prim i.wf p, i.nd.prim i.wf i.ix p, i.od.prim i.wf i.ix p,
+    i.rg.prim i.wf i.tm i.ix p, i.cv.prim i.wf i.tm i.ix p⟩
+
+/-! ### prompt executions are executions without stale callbacks -/
+
+theorem visit_steps {st st' : State} {k l : Nat} (e : visit st k l = some st') :
+    ∃ st1, step st (.pick k l) = some st1 ∧
+      (st' = st1 ∨ (step st1 (.call k) = some st' ∧ st'.stale = st.stale)) ∧
+      (st'.sub k).pending = none ∧ (∀ k', k' ≠ k → (st'.sub k').pending = (st.sub k').pending) := by
+  unfold visit at e
+  cases hp : pick st k l with
+  | none => rw [hp] at e; cases e
+  | some st1 =>
+    rw [hp] at e
+    simp only at e
+    obtain ⟨hk, hs, hpn, hl, rfl⟩ := pick_inv hp
+    refine ⟨_, hp, ?_⟩
+    split at e
+    · rename_i hsome
+      obtain ⟨l', i, _, h2, h3, rfl⟩ := call_inv e
+      simp only [upd_sub, if_true] at h2 hsome
+      have hmem : l ∈ (st.sub k).listeners := by
+        by_cases hm : l ∈ (st.sub k).listeners
+        · exact hm
+        · simp [hm] at h2
+      simp only [hmem, if_true, Option.some.injEq] at h2
+      subst h2
+      refine ⟨Or.inr ⟨e, ?_⟩, ?_, ?_⟩
+      · simp [hmem]
+      · simp
+      · intro k' hne; simp [hne]
+    · rename_i hnone
+      cases e
+      refine ⟨Or.inl rfl, ?_, ?_⟩
+      · simpa using hnone
+      · intro k' hne; simp [hne]
+
+
+theorem step_other_pending {st st' : State} {a : Act} (e : step st a = some st')
+    (hp : ∀ k l, a ≠ .pick k l) (hc : ∀ k, a ≠ .call k) (h : ∀ k, (st.sub k).pending = none) :
+    (∀ k, (st'.sub k).pending = none) ∧ st'.stale = st.stale := by
+  have key := step_prim e
+  cases a with
+  | pick k l => exact absurd rfl (hp k l)
+  | call k => exact absurd rfl (hc k)
+  | publish s => simp only [step, Option.some.injEq] at e; subst e; exact ⟨h, rfl⟩
+  | dispatch => obtain ⟨p, _, _, rfl⟩ := dispatch_inv e; exact ⟨h, rfl⟩
+  | send =>
+    obtain ⟨k, rest, _, g⟩ := send_inv e
+    rcases g with ⟨_, rfl⟩ | ⟨_, rfl⟩
+    · refine ⟨fun k' => ?_, rfl⟩
+      simp only [upd_sub]; split
+      · exact h k'
+      · exact h k'
+    · exact ⟨h, rfl⟩
+  | take k =>
+    obtain ⟨i, rest, _, _, _, _, rfl⟩ := take_inv e
+    refine ⟨fun k' => ?_, rfl⟩
+    simp only [upd_sub]; split
+    · rfl
+    · exact h k'
+  | snap k =>
+    obtain ⟨i, _, _, _, rfl⟩ := snap_inv e
+    refine ⟨fun k' => ?_, rfl⟩
+    simp only [upd_sub]; split
+    · exact h k'
+    · exact h k'
+  | finish k =>
+    obtain ⟨i, _, _, _, _, _, rfl⟩ := finish_inv e
+    refine ⟨fun k' => ?_, rfl⟩
+    simp only [upd_sub]; split
+    · exact h k'
+    · exact h k'
+  | exit k =>
+    obtain ⟨_, _, _, _, rfl⟩ := exit_inv e
+    refine ⟨fun k' => ?_, rfl⟩
+    simp only [upd_sub]; split
+    · exact h k'
+    · exact h k'
+  | register l s =>
+    simp only [step, Option.some.injEq] at e; subst e
+    rw [register_eq]
+    refine ⟨fun k' => ?_, ?_⟩
+    · cases ha : st.active s with
+      | none =>
+        simp only [stampReg, regNew]
+        split
+        · rfl
+        · exact h k'
+      | some k =>
+        simp only [stampReg, regOld, upd_sub]
+        split
+        · split
+          · exact h k'
+          · exact h k'
+        · exact h k'
+    · cases ha : st.active s <;> rfl
+  | unregister l s =>
+    simp only [step, Option.some.injEq] at e; subst e
+    rw [unregister_eq]
+    refine ⟨fun k' => ?_, ?_⟩
+    · cases ha : st.active s with
+      | none => exact h k'
+      | some k =>
+        simp only [stampUnreg]
+        split
+        · simp only [unregLast, upd_sub]; split
+          · exact h k'
+          · exact h k'
+        · simp only [unregSome, upd_sub]; split
+          · exact h k'
+          · exact h k'
+    · cases ha : st.active s with
+      | none => rfl
+      | some k => simp only [stampUnreg]; split <;> rfl
+
+/-- A prompt execution is an execution; no callback is pending between its steps and none was stale. -/
+theorem ReachP.reach {st : State} (h : ReachP st) :
+    Reach st ∧ st.stale = 0 ∧ ∀ k, (st.sub k).pending = none := by
+  induction h with
+  | init => exact ⟨Reach.init, rfl, fun _ => rfl⟩
+  | next a hr e ih =>
+    obtain ⟨r, s0, pn⟩ := ih
+    cases a with
+    | pick k l =>
+      simp only [stepP] at e
+      obtain ⟨st1, e1, e2, e3, e4⟩ := visit_steps e
+      have r1 := Reach.next _ r e1
+      refine ⟨?_, ?_, ?_⟩
+      · rcases e2 with rfl | ⟨e2, _⟩
+        · exact r1
+        · exact Reach.next _ r1 e2
+      · rcases e2 with rfl | ⟨_, e2⟩
+        · obtain ⟨_, _, _, _, rfl⟩ := pick_inv e1; exact s0
+        · rw [e2]; exact s0
+      · intro k'
+        by_cases hk : k' = k
+        · subst hk; exact e3
+        · rw [e4 k' hk]; exact pn k'
+    | call k => simp [stepP] at e
+    | publish s =>
+      have e' : step _ (.publish s) = some _ := e
+      obtain ⟨a1, a2⟩ := step_other_pending e' (by intros; simp) (by intros; simp) pn
+      exact ⟨Reach.next _ r e', a2 ▸ s0, a1⟩
+    | dispatch =>
+      have e' : step _ .dispatch = some _ := e
+      obtain ⟨a1, a2⟩ := step_other_pending e' (by intros; simp) (by intros; simp) pn
+      exact ⟨Reach.next _ r e', a2 ▸ s0, a1⟩
+    | send =>
+      have e' : step _ .send = some _ := e
+      obtain ⟨a1, a2⟩ := step_other_pending e' (by intros; simp) (by intros; simp) pn
+      exact ⟨Reach.next _ r e', a2 ▸ s0, a1⟩
+    | take k =>
+      have e' : step _ (.take k) = some _ := e
+      obtain ⟨a1, a2⟩ := step_other_pending e' (by intros; simp) (by intros; simp) pn
+      exact ⟨Reach.next _ r e', a2 ▸ s0, a1⟩
+    | snap k =>
+      have e' : step _ (.snap k) = some _ := e
+      obtain ⟨a1, a2⟩ := step_other_pending e' (by intros; simp) (by intros; simp) pn
+      exact ⟨Reach.next _ r e', a2 ▸ s0, a1⟩
+    | finish k =>
+      have e' : step _ (.finish k) = some _ := e
+      obtain ⟨a1, a2⟩ := step_other_pending e' (by intros; simp) (by intros; simp) pn
+      exact ⟨Reach.next _ r e', a2 ▸ s0, a1⟩
+    | exit k =>
+      have e' : step _ (.exit k) = some _ := e
+      obtain ⟨a1, a2⟩ := step_other_pending e' (by intros; simp) (by intros; simp) pn
+      exact ⟨Reach.next _ r e', a2 ▸ s0, a1⟩
+    | register l s =>
+      have e' : step _ (.register l s) = some _ := e
+      obtain ⟨a1, a2⟩ := step_other_pending e' (by intros; simp) (by intros; simp) pn
+      exact ⟨Reach.next _ r e', a2 ▸ s0, a1⟩
+    | unregister l s =>
+      have e' : step _ (.unregister l s) = some _ := e
+      obtain ⟨a1, a2⟩ := step_other_pending e' (by intros; simp) (by intros; simp) pn
+      exact ⟨Reach.next _ r e', a2 ▸ s0, a1⟩
+
+
+end SigModel.Bus
